@@ -22,18 +22,51 @@ CHECKS = {
     "C04": dict(cat="exploration", tech="RandomGen outputs vs reference predicate + exhaustive check per design that the library's acceptance tests (rejection criteria) never pass an invalid candidate",
                 text="Bounded exploration of D. Besides judging what RandomGen returns, every candidate sequence of each design is run through the library's own acceptance tests (the ones RandomGen rejects by): none that is definitely invalid may pass. That obligation does not depend on sampler luck.",
                 note=SYS_NOTE, ref="4.3 C04"),
+    "C05": dict(cat="exploration", tech="complete enumeration of RandomGen's candidate indices through the enumerator's own generation methods vs brute-force valid set; wp proofs of the mixed-radix / base-n / falling-factorial unranking",
+                text="Per design of D with a bounded number of candidates every candidate (preamble index x round component tuples x leftover components) is built exactly as RandomGen.__sample does, including the rejection test: accepted candidates map one-to-one onto the valid sequences (times documented copy multiplicity) and the sampled ranges have the sizes the counting code reports.",
+                note=SYS_NOTE + " Uniformity of random.randrange is trusted.", ref="4.3 C05"),
     "C06": dict(cat="exploration", tech="exhausted RandomGen vs brute-force valid set with multiplicities; metrics solution_count on no-rejection designs",
                 text="Bounded exploration of D: RandomGen asked for more than exist returns exactly the valid set (each once, times documented copy multiplicity) and stops; solution_count equals the number of valid sequences on single-CrossBlock designs without rejection-checked constraints or complex windows.",
                 note=SYS_NOTE + " Termination of the rejection loop is not proved: a worker exceeding the wall-clock limit is undecided.", ref="4.3 C06"),
     "C09": dict(cat="exploration", tech="requested-vs-returned counts and per-call multiplicities for IterateSATGen, RandomGen, IterateGen over D",
                 text="Bounded exploration: five requested counts around the number of available solutions per design and strategy; returned == min(requested, available); no sequence more often than the copy multiplicity of weighted levels outside the crossing.",
                 note="Bounded design space; 'available' is the strategy's own exhausted count (its exactness is C02/C06).", ref="4.3 C09"),
+    "C14": dict(cat="other", tech="every (trial, factor, level) of every design of D encoded by the real code vs independent closed-form layout, injectivity/range/decoding; z3 lemmas for layout injectivity; wp proof of applies_to_trial",
+                text="Per design of D all choices are encoded with _encode_variable and compared with an independently computed closed form, checked distinct, in range, inverted by decode_variable and consistent with factor_variables_for_trial and the cached counter; Gen.decode is run on all (or 300 seeded) one-hot assignments; auxiliary ids lie above. The closed-form layouts are proved injective and ranged for all geometries by z3.",
+                note="Bounded design space; the layout lemma is about the closed form, which is compared with (not extracted from) the code.", ref="4.1 C14"),
+    "C15": dict(cat="exploration", tech="exhaustive truth-table enumeration of derived-factor predicates per shape through the public API",
+                text="For seven derivation shapes every assignment of accepting-level sets to every window (completely when <= 300/5000 tables, else seeded plus all single-defect tables; ElseLevel variants) is built: overlap must raise, a gap must give an error and no sequences, otherwise returned sequences carry exactly the accepting level and '' where the factor does not apply.",
+                note="Two derived levels per factor, <= 3 source levels; reference reading for the total case.", ref="4.3 C15"),
     "C16": dict(cat="other", tech="trials_per_sample vs independently computed documented trial count per design; lengths of sequences from every strategy; wp proofs of __trials_required_for_crossing and applies_to_trial",
                 text="Per design of D the reported trial count equals an independent implementation of the documented arithmetic, and every strategy (incl. SMGen when it does not refuse) returns exactly that many entries per user factor. The counting helper __trials_required_for_crossing is proved (partial correctness) to return the smallest trial count containing `crossing_size` applicable trials; applies_to_trial is proved to be the documented start/stride progression.",
                 note=SYS_NOTE + " Termination of the counting loop is not proved.", ref="4.3 C16"),
     "C17": dict(cat="exploration", tech="sample_mismatch_experiment on every candidate sequence of each design vs three-valued reference predicate",
                 text="Bounded exploration: for each design of D every candidate sequence (whole space up to the stated limit) is checked by the real function; definitely valid must give {}, definitely invalid must not.",
                 note=SYS_NOTE + " Candidates carry correct derived levels; designs whose crossing is unsatisfiable by construction are not judged.", ref="4.3 C17"),
+    "C18": dict(cat="exploration", tech="histories: families of 2-3 blocks sharing factor/constraint objects built in every order vs fresh builds (solution sets, mismatch verdicts)",
+                text="Bounded exploration over construction orders: each block built from shared objects must equal its fresh build in trial count, exhausted IterateSATGen set and sample_mismatch_experiment verdicts.",
+                note="Families cover each window-scoped constraint class across CrossBlock/Repeat/Merge/Nest and shared transition/weighted factors.", ref="4.3 C18"),
+    "C19": dict(cat="exploration", tech="histories of library calls with ghost snapshots of the block's design-relevant state (frame condition) and a final synthesize_trials",
+                text="All single calls and seeded call sequences (length 2 quick / 3 thorough) over nine call kinds on 13 blocks incl. four with continuous factors; the snapshot must be unchanged after every call and the final synthesis must succeed, be valid and return the same columns.",
+                note="State snapshot covers design, orig_design, crossings, constraint classes, continuous factors, exclusions, min_trials, act_design, errors, level names.", ref="4.3 C19"),
+    "C20": dict(cat="exploration", tech="bounded contract evaluation of the conversion functions on synthesized and arbitrary experiments; CSV read back; hidden-factor exposure check over D",
+                text="Per design of D (incl. weighted factors outside the crossing) tuples/dicts/CSV outputs must reproduce the user factors' values per trial in design order and nothing else; raw helpers on random experiment lists.",
+                note="csv module used as reader.", ref="4.1 C20"),
+    "C21": dict(cat="exploration", tech="contract on captured stdout of tabulate_experiments over seeded experiments, factor and trial selections",
+                text="Printed frequency == count of selected trials with the combination; percentage == 100*frequency/selected within 1e-9; every combination once.",
+                note="At least one selected trial; the counting loop is inside a printing function and outside the deductive engines.", ref="4.1 C21"),
+    "C22": dict(cat="exploration", tech="recording distributions; exhaustive window shapes and constraint truth patterns; seeded end-to-end designs in killable workers",
+                text="get_window_val vs the documented window for all shapes (exhaustive in the bound), _check_constraints for all truth patterns, and end-to-end assembly (inputs received by dependent distributions, one value per trial, constraints hold, discrete part valid).",
+                note="No deductive part (dicts, NaN, isinstance dispatch are outside pyvc.wp); termination of resampling not claimed.", ref="4.1 C22"),
+    "C23": dict(cat="exploration", tech="relational: weighted design vs copy-expanded twin, both samplers exhausted, renamed back",
+                text="Printed sequence sets equal; crossed weighted levels add no distinct solutions; uncrossed ones have the twin's multiplicities.",
+                note="Constraints naming a weighted level are excluded from the twin comparison.", ref="4.3 C23"),
+    "C24": dict(cat="exploration", tech="relational: documented constructor equivalences, both sides built fresh, T and exhausted IterateSATGen sets compared",
+                text="MultiCrossBlock vs Merge of CrossBlocks (mode x alignment grid), Repeat vs Merge REPEAT, Repeat(block, []) / Merge([block]) vs block, CrossBlock vs single-crossing MultiCrossBlock WEIGHT; both rejected or both accepted with equal sets.",
+                note="Bounded design space.", ref="4.3 C24"),
+    "C29": dict(cat="other", tech="SMGen on every design of D x seeds: documented refusal or valid output; constraint classes enumerated by reflection",
+                text="Every design of D is given to SMGen with several seeds in killable workers: either the unsupported-feature error is raised or every returned sequence is valid; all concrete constraint classes found by reflection are exercised.",
+                note="Timer interleavings of the search are not explored (schedules quantifier not covered).", ref="4.3 C29"),
     "C25": dict(cat="other", tech="Nest designs: compiled-formula model sets (SAT) and both samplers vs reference reading; associativity by set equality",
                 text="Curated Nest designs (outer/inner 2-3 levels, inner / own constraints, uncrossed outer factor, nested Nest): trial count, per-group constancy of outer crossed factors, outer crossing over groups and inner crossing/constraints within groups are all part of the reference predicate the model sets are compared with; Nest(Nest(a,b),c) and Nest(a,Nest(b,c)) must have equal solution sets.",
                 note=SYS_NOTE + " Constraints on the OUTER block other than Exclude are outside the reference reading.", ref="4.3 C25"),
